@@ -517,7 +517,8 @@ Rejected_NoEffect(s, e, t) == (~e.ok) => t = s
 -----------------------------------------------------------------------------
 (* Model-checking universe *)
 CONSTANTS InitStd, InitTok, CFee, FeeNum, FeeDen, UniNum, UniDen, TaxNum, TaxDen,
-          Amts, Mins, Liqs, Donations, DlOffs, MaxNow, Recipients, MaxSteps
+          Amts, Mins, Liqs, Donations, DlOffs, MaxNow, Senders, Recipients, MaxSteps,
+          WithUni
 
 NTok == Cardinality(Tokens)
 Lpts == {LptOf(n) : n \in 1..NTok}
@@ -550,28 +551,30 @@ Ev(name, who) == [NoEv EXCEPT !.name = name, !.who = who]
 Deadlines == {st.now - 1 + k : k \in DlOffs}
 
 AddLiquidity ==
-  \E who \in Users, d \in Tokens, x \in Amts, m \in Amts, lo \in Mins, dl \in Deadlines :
+  \E who \in Senders, d \in Tokens, x \in Amts, m \in Amts, lo \in Mins, dl \in Deadlines :
     Step([Ev("AddLiquidity", who) EXCEPT !.denom = d, !.amt = x, !.amt2 = m, !.min1 = lo, !.deadline = dl])
 RemoveLiquidity ==
-  \E who \in Users, l \in Lpts, x \in Liqs, lo1 \in Mins, lo2 \in Mins, dl \in Deadlines :
+  \E who \in Senders, l \in Lpts, x \in Liqs, lo1 \in Mins, lo2 \in Mins, dl \in Deadlines :
     Step([Ev("RemoveLiquidity", who) EXCEPT !.denom = l, !.amt = x, !.min1 = lo1, !.min2 = lo2, !.deadline = dl])
 AddUnilateral ==
-  \E who \in Users, d \in Tokens, x \in Amts, lo \in Mins, dl \in Deadlines :
+  WithUni /\
+  \E who \in Senders, d \in Tokens, x \in Amts, lo \in Mins, dl \in Deadlines :
     \E tk \in {d, Std} :
       Step([Ev("AddUnilateral", who) EXCEPT !.denom = d, !.tok = tk, !.amt = x, !.min1 = lo, !.deadline = dl])
 RemoveUnilateral ==
-  \E who \in Users, d \in Tokens, x \in Liqs, lo \in Mins \ {0}, dl \in Deadlines :
+  WithUni /\
+  \E who \in Senders, d \in Tokens, x \in Liqs, lo \in Mins \ {0}, dl \in Deadlines :
     \E tk \in {d, Std} :
       Step([Ev("RemoveUnilateral", who) EXCEPT !.denom = d, !.tok = tk, !.amt = x, !.min1 = lo, !.deadline = dl])
 Swap ==
-  \E who \in Users, to \in Recipients, i \in {Std} \cup Tokens, o \in {Std} \cup Tokens,
+  \E who \in Senders, to \in Recipients, i \in {Std} \cup Tokens, o \in {Std} \cup Tokens,
      x \in Amts, y \in Amts, buy \in BOOLEAN, dl \in Deadlines :
     /\ i # o
     /\ Step([Ev("Swap", who) EXCEPT !.to = to, !.inDenom = i, !.outDenom = o, !.amt = x, !.amt2 = y,
                !.isBuy = buy, !.deadline = dl,
                !.hops = IF i # Std /\ o # Std THEN 2 ELSE 1])
 Donate ==
-  \E who \in Users, to \in Escs, d \in {Std} \cup Tokens, a \in Donations :
+  \E who \in Senders, to \in Escs, d \in {Std} \cup Tokens, a \in Donations :
     Step([Ev("Donate", who) EXCEPT !.to = to, !.denom = d, !.amt = a])
 EndBlock ==
   /\ st.now < MaxNow
